@@ -53,8 +53,35 @@ func (E *Engine) typesPkg(name string) *types.Package {
 	return nil
 }
 
-// encodeFunc builds the verification conditions of one function under contract.
+// encodeFunc builds the verification conditions of one function under contract.  The
+// encoding is repeated with the set of heap arrays found by the previous pass installed
+// at entry, so that every array has an explicit version in every heap state (havoc and
+// conditional frames then work per array, without the lazy "epoch" fallback).
 func (E *Engine) encodeFunc(key string) (enc *FnEnc, err error) {
+	preset := map[string]string{}
+	for pass := 0; pass < 5; pass++ {
+		enc, err = E.encodeOnce(key, preset)
+		if err != nil {
+			return enc, err
+		}
+		grew := false
+		for k, s := range enc.R.heapDecl {
+			if strings.HasPrefix(k, "ghost!") || strings.HasPrefix(k, "G_") && enc.stableGlobals[k] {
+				continue
+			}
+			if _, ok := preset[k]; !ok {
+				preset[k] = s
+				grew = true
+			}
+		}
+		if !grew {
+			return enc, nil
+		}
+	}
+	return enc, nil
+}
+
+func (E *Engine) encodeOnce(key string, preset map[string]string) (enc *FnEnc, err error) {
 	fn := E.L.Funcs[key]
 	fc := E.CS.Funcs[key]
 	if fn == nil {
@@ -82,6 +109,14 @@ func (E *Engine) encodeFunc(key string) (enc *FnEnc, err error) {
 	enc.top = f
 	pc := "true"
 	heap := Heap{}
+	var pk []string
+	for k := range preset {
+		pk = append(pk, k)
+	}
+	sort.Strings(pk)
+	for _, k := range pk {
+		heap[k] = enc.R.heapConst(k, preset[k])
+	}
 	f.curHeap = heap
 	f.curPC = pc
 	var invs []string
@@ -120,12 +155,28 @@ func (E *Engine) encodeFunc(key string) (enc *FnEnc, err error) {
 		f.locals = append(f.locals, localAlloc{ref: fmt.Sprintf("(sl-ref %s)", sv.term), t: types.NewArray(sl.Elem(), 0)})
 		enc.note("assumed: the backing array of " + st + " is not written while " + key + " runs (no store into it exists in otto; aliasing through other slices assumed absent)")
 	}
+	for k, cs := range fc.Calls {
+		enc.R.heapDecl[ghostCallKey(k)] = "Bool"
+		f.curHeap[ghostCallKey(k)] = "false"
+		if cs.As != "" {
+			// the ghost result has the callee's result type even if no call site matches
+			if cf := E.L.Funcs[cs.Callee]; cf != nil && cf.Signature.Results().Len() == 1 {
+				f.ghostRetTypes[k] = cf.Signature.Results().At(0).Type()
+			} else {
+				cfail("calls ... as %s: callee %s not found or not single-valued", cs.As, cs.Callee)
+			}
+		}
+	}
 	enc.prePC = f.curPC
 	enc.preNDecls = len(enc.decls)
+	if fc.PureIf == nil && fc.Pure && !fc.HasModifies {
+		fc.PureIf = &Clause{Kind: "pure_if", Text: "true", Func: key, File: fc.File, Line: fc.Line}
+	}
 	if fc.PureIf != nil {
 		enc.pureCond = enc.define("pure!cond", "Bool", f.evalContractBool(fc.PureIf, f.curHeap, nil, nil))
 	}
 	f.encodeBody(f.curPC, f.curHeap)
+	f.frameObligation()
 	f.postconditions()
 	f.throwObligations()
 	return enc, nil
@@ -281,6 +332,31 @@ func (f *frame) checkVariant(li *loopInfo) {
 func (f *frame) postconditions() {
 	e := f.enc
 	fc := f.contract
+	for k, cs := range fc.Calls {
+		var conj []string
+		when := "true"
+		if cs.When != "" {
+			when = f.evalContractBool(&Clause{Kind: "calls", Text: cs.When, Func: fc.Key, File: cs.Clause.File, Line: cs.Clause.Line}, f.entryHeap, nil, nil)
+		}
+		for _, r := range f.rets {
+			flag, ok := r.heap[ghostCallKey(k)]
+			if !ok {
+				flag = "false"
+			}
+			if cs.Negative {
+				flag = not(flag)
+			}
+			conj = append(conj, implies(r.pc, flag))
+		}
+		save := f.curPC
+		f.curPC = e.prePC
+		kind := "calls"
+		if cs.Negative {
+			kind = "nocall"
+		}
+		f.obligeClause(fmt.Sprintf("%s.%d", kind, k+1), cs.Callee, implies(when, and(conj...)), cs.Clause)
+		f.curPC = save
+	}
 	if len(fc.Ensures) == 0 {
 		return
 	}
@@ -295,6 +371,18 @@ func (f *frame) postconditions() {
 				res = SV{tuple: r.vals}
 			}
 			bindResults(extra, f.fn, res)
+			for k, cs := range fc.Calls {
+				if cs.As == "" {
+					continue
+				}
+				if t, ok := f.ghostRetTypes[k]; ok {
+					term, ok2 := r.heap[ghostRetKey(k)]
+					if !ok2 {
+						term = e.zeroValue(t)
+					}
+					extra[cs.As] = SV{t: t, term: term}
+				}
+			}
 			save := f.curPC
 			f.curPC = r.pc
 			c := f.evalContractBool(en, r.heap, extra, nil)
@@ -354,6 +442,9 @@ func (f *frame) throwObligations() {
 		}
 		save := f.curPC
 		f.curPC = t.pc
+		if t.cond != "" {
+			f.curPC = and(t.pc, t.cond)
+		}
 		label := t.text
 		if t.kind == "call" {
 			label = "call " + t.callee
@@ -399,4 +490,64 @@ func sortedKeys(m map[string]bool) []string {
 	}
 	sort.Strings(ks)
 	return ks
+}
+
+// frameObligation: with a modifies clause, everything the body may write (its inferred
+// visible write set, callees by their own contracts) must be listed.  Discharged
+// syntactically; reported as an obligation so that it appears in the evidence.
+func (f *frame) frameObligation() {
+	fc := f.contract
+	if !fc.HasModifies {
+		return // "pure" is checked semantically (frame.pure obligations at every write)
+	}
+	allowed := map[string]bool{}
+	for _, m := range fc.Modifies {
+		if m == "*" {
+			return
+		}
+		if ks, ok := f.enc.modifiesSpecial(m, f.fn.Pkg.Pkg); ok {
+			for _, k := range ks {
+				allowed[k] = true
+			}
+			continue
+		}
+		parts := strings.SplitN(m, ".", 2)
+		obj := f.fn.Pkg.Pkg.Scope().Lookup(parts[0])
+		tn, ok := obj.(*types.TypeName)
+		if !ok || len(parts) != 2 {
+			cfail("modifies entry %q of %s", m, fc.Key)
+		}
+		st := tn.Type().Underlying().(*types.Struct)
+		for i := 0; i < st.NumFields(); i++ {
+			if st.Field(i).Name() == parts[1] || parts[1] == "*" {
+				allowed[fieldKeyOf(tn.Type(), i)] = true
+			}
+		}
+	}
+	w := map[string]bool{}
+	for _, b := range f.fn.Blocks {
+		for _, in := range b.Instrs {
+			f.enc.E.instrWrites(nil, in, w)
+		}
+	}
+	var extra []string
+	for k := range w {
+		if !allowed[k] {
+			extra = append(extra, k)
+		}
+	}
+	sort.Strings(extra)
+	cond := "true"
+	text := "modifies " + strings.Join(fc.Modifies, ", ")
+	if fc.Pure && !fc.HasModifies {
+		text = "pure"
+	}
+	if len(extra) > 0 {
+		cond = "false"
+		text += " -- but the body may also write: " + strings.Join(extra, ", ")
+	}
+	save := f.curPC
+	f.curPC = "true"
+	f.oblige("frame.modifies", "", cond, text, token.NoPos)
+	f.curPC = save
 }
